@@ -57,8 +57,12 @@ func c05WireIndex(c *Ctx) map[string][]string {
 
 func runC05(c *Ctx) {
 	s, t := c.S, c.T
-	if t.Bool(25) {
+	switch {
+	case t.Bool(25):
 		c05Legacy(c)
+		return
+	case t.Bool(20):
+		c05Stdio(c)
 		return
 	}
 	c.SetPlan("server", "streamable")
@@ -656,4 +660,147 @@ func c05RootsClass(m string) string {
 		return "no-stream"
 	}
 	return "other"
+}
+
+// c05Stdio: server-issued requests on the stdio server.  Every client is a process of its own (one
+// session per server instance); tool handlers ask their session for its roots, some of them give up
+// (cancel the context) around the instant the client's answer travels back.  Oracle: no goroutine
+// of the server panics (the process would die), a request that was not given up returns the roots
+// of its own session, a request that was given up returns those roots or the context's error,
+// nothing stays pending, and the session keeps serving afterwards.
+func c05Stdio(c *Ctx) {
+	s, t := c.S, c.T
+	c.SetPlan("server", "stdio")
+	w := newWorld(c, "stdio", "srv")
+	asked := newCounter()
+	w.register(func(r registrar) {
+		r.RegisterTool(mcp.NewTool("roots-names", mcp.WithString("key"), mcp.WithString("client"), mcp.WithNumber("giveup")), func(ctx context.Context, req *mcp.CallToolRequest) (*mcp.CallToolResult, error) {
+			key, _ := req.Params.Arguments["key"].(string)
+			client, _ := req.Params.Arguments["client"].(string)
+			giveup, _ := req.Params.Arguments["giveup"].(float64)
+			rctx, cancel := context.WithTimeout(ctx, 45*time.Second)
+			defer cancel()
+			if giveup > 0 {
+				base := asked.Get(client)
+				s.Go("giveup-"+key, func() {
+					// wait until the client has been asked, then a few more steps: the answer is on its way
+					for i := 0; i < 3000 && asked.Get(client) == base; i++ {
+						s.Yield("giveup#asked")
+						if i%50 == 49 {
+							s.Sleep(time.Millisecond)
+						}
+					}
+					for i := 0; i < int(giveup)-1; i++ {
+						s.Yield("giveup#wait")
+					}
+					cancel()
+					s.Probe("c05.stdio_gave_up")
+				})
+			}
+			srv, _ := mcp.GetServerFromContext(ctx).(*mcp.StdioServer)
+			if srv == nil {
+				return &mcp.CallToolResult{Content: []mcp.Content{mcp.NewTextContent("err:no stdio server in context")}}, nil
+			}
+			res, err := srv.ListRoots(rctx)
+			if err != nil {
+				return &mcp.CallToolResult{Content: []mcp.Content{mcp.NewTextContent("err:" + err.Error())}}, nil
+			}
+			var names []string
+			for _, r := range res.Roots {
+				names = append(names, r.Name+"="+r.URI)
+			}
+			return &mcp.CallToolResult{Content: []mcp.Content{mcp.NewTextContent("roots:" + strings.Join(names, ","))}}, nil
+		})
+		registerEcho(c, r, w.Count)
+	})
+	nClients := 1 + t.Draw(2)
+	type callT struct {
+		client int
+		key    string
+		giveup int
+		got    string
+		err    error
+	}
+	var calls []*callT
+	var tasks []*sim.Task
+	var clients []*Client
+	for k := 0; k < nClients; k++ {
+		cl := w.newClient()
+		cl.Link.FromSrv.ShortRead = t.Pick(0, 20)
+		clients = append(clients, cl)
+		cl.Stdio.SetRootsProvider(countingAll{client: k, asked: asked, s: s})
+		if err := initClient(c, cl); err != nil {
+			s.Violate("C05|init-failed|stdio", "Initialize failed: %v", err)
+			return
+		}
+		nCallers := 1 + t.Draw(2)
+		for j := 0; j < nCallers; j++ {
+			nOps := 1 + t.Draw(3)
+			tasks = append(tasks, s.Go(fmt.Sprintf("cl%d/caller%d", k, j), func() {
+				for i := 0; i < nOps; i++ {
+					ct := &callT{client: k, key: c.Nonce("k")}
+					if c.T.Bool(50) {
+						ct.giveup = 1 + c.T.Draw(14)
+					}
+					c.mu.Lock()
+					calls = append(calls, ct)
+					c.mu.Unlock()
+					ctx, cancel := context.WithTimeout(context.Background(), 3*time.Minute)
+					res, err := cl.API.CallTool(ctx, callToolReq("roots-names", map[string]interface{}{"key": ct.key, "client": fmt.Sprintf("client%d", k), "giveup": float64(ct.giveup)}))
+					cancel()
+					ct.err = err
+					if err == nil {
+						ct.got = textOf(res)
+					}
+				}
+			}))
+		}
+
+	}
+	for _, a := range s.WaitTasks(30*time.Minute, tasks...) {
+		s.Violate("C05|stuck|stdio", "%s did not finish", a.Name)
+	}
+	s.Settle(20 * time.Millisecond)
+	for _, ct := range calls {
+		want := fmt.Sprintf("roots:client%d=file:///client%d", ct.client, ct.client)
+		switch {
+		case ct.err != nil:
+			s.Violate("C05|roots-request-failed|stdio|call-"+errClass(ct.err), "the tool call that asks its session for its roots failed: %v (gave up: %v)", ct.err, ct.giveup > 0)
+		case ct.got == want:
+			s.Probe("c05.stdio_roots_ok")
+		case ct.giveup > 0 && strings.HasPrefix(ct.got, "err:") && strings.Contains(ct.got, "context canceled"):
+			s.Probe("c05.stdio_roots_given_up")
+		default:
+			s.Violate("C05|roots-wrong|stdio", "ListRoots inside the session of client %d returned %q, want %q (gave up: %v)", ct.client, short(ct.got), want, ct.giveup > 0)
+		}
+	}
+	for k, cl := range clients {
+		if n := mcp.VerifPendingServerRequests(cl.Link.Srv); n != 0 {
+			s.Violate("C05|pending-left|stdio", "%d server->client requests are still pending in the server of client %d after everything has finished", n, k)
+		}
+		// the session still serves
+		nonce := c.Nonce("after")
+		ctx, cancel := context.WithTimeout(context.Background(), time.Minute)
+		res, err := cl.API.CallTool(ctx, callToolReq("echo", map[string]interface{}{"nonce": nonce}))
+		cancel()
+		if err != nil || textOf(res) != "r:"+nonce {
+			s.Violate("C05|server-dead-after-roots|stdio", "after the roots requests the server of client %d no longer answers: %v", k, err)
+		}
+		cl.API.Close()
+	}
+	s.Probe("c05.stdio")
+}
+
+// countingAll is the roots provider of one stdio client: fixed roots naming the client, and a count
+// of how often the client was asked (so that a canceller knows the answer is on its way).
+type countingAll struct {
+	client int
+	asked  *Counter
+	s      *sim.Sim
+}
+
+func (f countingAll) GetRoots() []mcp.Root {
+	f.asked.Inc(fmt.Sprintf("client%d", f.client))
+	f.s.Yield("roots-provider")
+	return []mcp.Root{{URI: fmt.Sprintf("file:///client%d", f.client), Name: fmt.Sprintf("client%d", f.client)}}
 }
